@@ -129,6 +129,52 @@ check("C12", "TLC check of JsString (reader automaton, round trip with observed 
       "DESIGN.md §4.5, §6 C12")
 
 
+CSS_NOTE = TRUSTED + "; python fractions for value*100/ratio"
+
+check("C08", "TLC enumeration of MCCss families against the CssRewrite reference transducer + re-tokenised outputs compared token by token with gap requirements",
+      "spec/CssRewrite.tla is a reference transducer over css-syntax tokens written from the documented rewrites; MCCss "
+      "enumerates selectors (every pair of 9 compounds joined in every way, nested in selector functions to depth 3, under "
+      "every rule-bearing at-rule), values (5 numeric kinds x 28 spellings x 10 value shapes incl. calc with nested "
+      "parentheses) and spelling-sensitive tokens x option sets, TLC checking bracket balance of both expected outputs; each "
+      "case is concretised with seeded whitespace/comments/line breaks, transformed by the real compiler, both outputs "
+      "re-tokenised by cssparser and compared token by token; required gaps must hold whitespace, forbidden gaps none.",
+      "DESIGN.md §4.6, §6 C08", CSS_NOTE)
+
+check("C09", "TLC enumeration of MCCss selector families x prefix option sets + per-token provenance comparison of class-name rewrites",
+      "Same transducer and replay as C08, restricted to the prefix aspect over PrefixOpts (prefix none / empty / ascii / "
+      "non-ASCII x sign on/off): every ident after a class dot at every nesting depth and in every rule-bearing at-rule "
+      "carries prefix--, preceded by the sign comment when configured; no other ident changes; source-map names hold the "
+      "original spelling.",
+      "DESIGN.md §4.6, §6 C09", CSS_NOTE)
+
+check("C10", "TLC enumeration of numeric tokens x value shapes (MCCss val) + exact rational oracle for rpx conversion and integer preservation",
+      "MCCss family val places each of 28 pool spellings (i32 boundaries, 2^24 neighbours, exponents, signed zero, leading "
+      "+ and .) as rpx / px / em / number / percentage in 10 value shapes, media queries, @font-face, @keyframes and "
+      "z-index; the harness compares re-tokenised numbers against exact fractions: rpx -> value*100/ratio vw within 2 "
+      "eps_f32 for ratios 750, 375, 0.5, 1e6 (thorough); integers exactly; other numbers within 2 eps_f32.",
+      "DESIGN.md §4.6, §6 C10", CSS_NOTE)
+
+check("C17", "TLC check of the :host partition invariant on CssRewrite + replay of host families with both outputs compared",
+      "TLC checks on every case of family host that rule ids partition between the normal output, the low-priority "
+      "output and the HostSelectorCombination warnings; the real compiler's two outputs and warnings are compared with "
+      "the expected ones (wrapper chains replayed in the low-priority output, [wx-host] / [is] attribute selectors).",
+      "DESIGN.md §4.6, §6 C17", CSS_NOTE)
+
+check("C18", "TLC enumeration of import forms x conditions x positions (MCCss import) + placeholder decoded back and wrapper nesting compared",
+      "10 paths (spaces, quotes, */, percent, non-ASCII, astral) x string/url() x layer none/bare/(x) x supports x media "
+      "x sign on/off x prefix, plus imports after rules and after imports; the comment's percent-decoded body must equal "
+      "the path, contain no */, stand inside the expected @layer/@supports/@media blocks; position warnings compared; "
+      "without a sign the rule must re-tokenise to itself.",
+      "DESIGN.md §4.6, §6 C18", CSS_NOTE)
+
+check("C19", "TLC enumeration of MCCss families with provenance ids + source-map entries checked against the concretiser's recorded positions",
+      "Every expected output token carries the id of the input token it comes from; the concretiser records the line / "
+      "UTF-16 column where it spelled that token (after comments, across line breaks, after astral characters); each "
+      "generated token must have a source-map entry at its generated column that points at that position, entries are "
+      "ordered, names carry the original spelling of rewritten tokens, and the map survives JSON serialisation.",
+      "DESIGN.md §4.6, §6 C19", CSS_NOTE)
+
+
 def main():
     props = [json.loads(l) for l in open(os.path.join(HERE, "properties.jsonl"))]
     ids = [p["id"] for p in props]
